@@ -1,0 +1,52 @@
+//go:build verif
+
+package metric
+
+// Contracts for the verification framework in /verif (comment-only file, build tag `verif`).
+// Abstract view of a collector: c.collection : label-hash -> (value, labels, group).
+
+//@ pure utils/labels.LabelValues metric.HashLabelValues
+
+// C16: Add(g, v, labels) makes the series of this label set carry exactly old+v under group g
+// and leaves every other series alone.
+//@ func (*ConstCounterCollector).Add
+//@   prop C16
+//@   requires c.collection != nil
+//@   modifies mapof(c.collection)
+//@   let h := HashLabelValues(LabelValues(labels, c.labelNames))
+//@   ensures [value-new/integral]   isint(value) && value >= 0 && !old(has(c.collection, h)) ==> c.collection[h].Value == value
+//@   ensures [value-add/integral]   isint(value) && value >= 0 && old(has(c.collection, h)) ==> c.collection[h].Value == old(c.collection[h].Value) + value
+//@   ensures [value-new/fractional] !isint(value) && value >= 0 && !old(has(c.collection, h)) ==> c.collection[h].Value == value
+//@   ensures [value-add/fractional] !isint(value) && value >= 0 && old(has(c.collection, h)) ==> c.collection[h].Value == old(c.collection[h].Value) + value
+//@   ensures [group/new-series]      has(c.collection, h) && (!old(has(c.collection, h)) ==> c.collection[h].Group == group)
+//@   ensures [group/existing-series] old(has(c.collection, h)) ==> c.collection[h].Group == group
+//@   ensures [other-series] forall(k, uint64, k != h ==> has(c.collection, k) == old(has(c.collection, k)) && c.collection[k] == old(c.collection[k]))
+
+//@ func (*ConstGaugeCollector).Set
+//@   prop C16
+//@   requires c.collection != nil
+//@   modifies mapof(c.collection)
+//@   let h := HashLabelValues(LabelValues(labels, c.labelNames))
+//@   ensures [value]        has(c.collection, h) && c.collection[h].Value == value
+//@   ensures [group/new-series]      !old(has(c.collection, h)) ==> c.collection[h].Group == group
+//@   ensures [group/existing-series] old(has(c.collection, h)) ==> c.collection[h].Group == group
+//@   ensures [other-series] forall(k, uint64, k != h ==> has(c.collection, k) == old(has(c.collection, k)) && c.collection[k] == old(c.collection[k]))
+
+// C16: expiring a group removes exactly the series of that group.
+//@ func (*ConstCounterCollector).ExpireGroupMetrics
+//@   prop C16
+//@   modifies mapof(c.collection)
+//@   ensures [removed] forall(k, uint64, has(c.collection, k) == (old(has(c.collection, k)) && old(c.collection[k].Group) != group))
+//@   ensures [kept]    forall(k, uint64, has(c.collection, k) ==> c.collection[k] == old(c.collection[k]))
+//@   loop 1
+//@     invariant forall(k, uint64, has(c.collection, k) == (old(has(c.collection, k)) && !(visited(k) && old(c.collection[k].Group) == group)))
+//@     invariant forall(k, uint64, has(c.collection, k) ==> c.collection[k] == old(c.collection[k]))
+
+//@ func (*ConstGaugeCollector).ExpireGroupMetrics
+//@   prop C16
+//@   modifies mapof(c.collection)
+//@   ensures [removed] forall(k, uint64, has(c.collection, k) == (old(has(c.collection, k)) && old(c.collection[k].Group) != group))
+//@   ensures [kept]    forall(k, uint64, has(c.collection, k) ==> c.collection[k] == old(c.collection[k]))
+//@   loop 1
+//@     invariant forall(k, uint64, has(c.collection, k) == (old(has(c.collection, k)) && !(visited(k) && old(c.collection[k].Group) == group)))
+//@     invariant forall(k, uint64, has(c.collection, k) ==> c.collection[k] == old(c.collection[k]))
